@@ -113,3 +113,30 @@ Lemma pure_v1_detected text :
   has_comma (words_of text) || has_v1_prefix (words_of text) || Nat.ltb 1 (length (words_of text)) = true ->
   select_auto text = DV1.
 Proof. intros A B. rewrite select_auto_table. cbn zeta. rewrite A, andb_false_r. now rewrite B. Qed.
+
+(* only the exact, lower-case operator words, a parenthesis or a wildcard make a word a new-style keyword: words that merely
+   resemble them (OR, And, NOT, order, android) are ordinary tags for the detection *)
+Definition ordinary_word (w : ustr) : Prop :=
+  w <> kw_and /\ w <> kw_or /\ w <> kw_not /\ w <> [cLP] /\ w <> [cRP] /\ has_magic w = false.
+
+Lemma ustr_eqb_neq a b : a <> b -> ustr_eqb a b = false.
+Proof. intros H. destruct (ustr_eqb a b) eqn:E; [|reflexivity]. apply ustr_eqb_eq in E. contradiction. Qed.
+
+Lemma ordinary_words_are_no_keywords words :
+  (forall w, In w words -> ordinary_word w) -> has_v2_keyword words = false.
+Proof.
+  intros H. unfold has_v2_keyword. apply orb_false_iff. split.
+  - induction words as [|w r IH]; [reflexivity|]. cbn [existsb].
+    destruct (H w (or_introl eq_refl)) as (A & B & C & D & E & _).
+    rewrite (ustr_eqb_neq _ _ A), (ustr_eqb_neq _ _ B), (ustr_eqb_neq _ _ C), (ustr_eqb_neq _ _ D), (ustr_eqb_neq _ _ E).
+    cbn [orb]. apply IH. intros w' Hin. apply H. right. exact Hin.
+  - induction words as [|w r IH]; [reflexivity|]. cbn [existsb].
+    destruct (H w (or_introl eq_refl)) as (_ & _ & _ & _ & _ & F). rewrite F. cbn [orb].
+    apply IH. intros w' Hin. apply H. right. exact Hin.
+Qed.
+
+Lemma ordinary_words_read_as_v1 text :
+  (forall w, In w (words_of text) -> ordinary_word w) ->
+  has_comma (words_of text) || has_v1_prefix (words_of text) || Nat.ltb 1 (length (words_of text)) = true ->
+  select_auto text = DV1.
+Proof. intros H Hv. apply pure_v1_detected; [apply ordinary_words_are_no_keywords; exact H|exact Hv]. Qed.
